@@ -52,6 +52,8 @@ def do_check(prop: str, tier: str) -> int:
     seed = common.seed_from_env()
     ctx = Ctx(prop, tier, seed)
     mod = importlib.import_module(f"props.{prop.lower()}")
+    for stale in common.REPLAYS.glob(f"{prop}_*.json"):  # replays of earlier runs (other trees) must not be mistaken for this run's
+        stale.unlink()
     breaks = []  # broken proof obligations / correspondences: dict(kind, what, inputs=[...])
     violations = []  # dict(what, replay payload, found: bool)
     known_lines = []
